@@ -260,6 +260,17 @@ fn parse_suppression_set(text: &str) -> Option<HashSet<String>> {
   Some(set)
 }
 
+/// verification hook: the private `parse_suppression_set`, reachable through the public type
+/// (`None` = suppress all; the set is returned sorted)
+#[cfg(feature = "verif-hooks")]
+impl<L: Language> CombinedScan<'_, L> {
+  pub fn verif_parse_suppression_set(text: &str) -> Option<Vec<String>> {
+    let mut v: Vec<String> = parse_suppression_set(text)?.into_iter().collect();
+    v.sort();
+    Some(v)
+  }
+}
+
 #[cfg(test)]
 mod test {
   use super::*;
